@@ -161,7 +161,13 @@ class Group:
         else:
             raise ValueError(f"no gateway type found for {spec._spec!r}")
         gw.spec = spec
-        self._register(gw)
+        try:
+            self._register(gw)
+        except BaseException:
+            # e.g. the id was taken by a concurrent makegateway():
+            # do not leave the just started process behind
+            gw._io.kill()
+            raise
         if spec.chdir or spec.nice or spec.env:
             channel = gw.remote_exec(
                 """
@@ -192,6 +198,9 @@ class Group:
                 if id in self:
                     raise ValueError(f"already have gateway with id {id!r}")
                 spec.id = id
+        elif spec.id in self:
+            # refuse a taken id before any process or connection is created
+            raise ValueError(f"already have gateway with id {spec.id!r}")
 
     def _register(self, gateway: Gateway) -> None:
         assert not hasattr(gateway, "_group")
